@@ -83,12 +83,15 @@ def _eval_config(job):
     prog = model.Program(raw)
     am = anchor.AnchorModel(prog, raw)
     ctx = Ctx(pid, tier, prog, am, raw, meta, cfg)
+    from rules import snapshot
+    renamed = snapshot.apply_renames(prog)
+    if renamed:
+        ctx.notes.append("renamed helpers resolved by content: %s" % renamed)
     try:
         try:
             mod.run(ctx)
         finally:
             # (S) reviewed snapshot of the small shared helpers this property relies on (rules/snapshot.py)
-            from rules import snapshot
             try:
                 snapshot.check_snapshot(ctx, pid)
             except AnchorMissing:
